@@ -782,6 +782,31 @@ def known_finding(case, obs, known):
     return None
 
 
+def failure_signature(case, obs):
+    """Why a case fails; a shrunk candidate must fail for the same reason (and, for the planted-defect stream, about the same file)."""
+    if not isinstance(obs, dict):
+        return ("disagree",)
+    if obs.get("harness_fail"):
+        return ("died",)
+    pf = obs.get("pred_fail") or ""
+    if not pf:
+        return ("disagree", obs.get("out"))
+    again = "again" if pf.startswith("when the same texts are read again") else "history" if pf.startswith("outcome depends on history") else "first"
+    if "escaped" in pf:
+        kind = "escaped"
+    elif "without a path" in pf:
+        kind = "no-path"
+    elif "outside the directories" in pf:
+        kind = "outside"
+    elif "does not exist" in pf:
+        kind = "nonexistent"
+    elif "the offending file is" in pf:
+        kind = "wrong-file"
+    else:
+        kind = "other"
+    return ("pred", again, kind, obs.get("repeat_out") or obs.get("out"), obs.get("culprit", ""), case.get("expect_path"))
+
+
 def shrink(case):
     if case["k"] == "expr":
         for c in E.shrink(case):
@@ -790,6 +815,24 @@ def shrink(case):
             yield c
         return
     files = case["files"]
+    if case.get("expect_path"):
+        # The predicate "the error names exactly this file" presupposes ONE planted defect: a candidate is only faithful if the
+        # defective file, every referrer on the way to it and every text stay as they are.  The only safe reduction is to drop a
+        # file that is not the defective one and that no remaining file refers to (e.g. the top of a two-level chain).
+        keep = os.path.basename(case["expect_path"])
+        for name in sorted(files):
+            if os.path.basename(name) == keep and case["expect_path"].endswith(name):
+                continue
+            stem = os.path.basename(name)[:-5].split(".")
+            short = stem[1] if len(stem) == 4 else stem[0]
+            others = [t for n, t in files.items() if n != name] + [t for fs in case.get("lookup", {}).values() for t in fs.values()]
+            if any(re.search(r"(?<![A-Za-z0-9_])%s\.\d" % re.escape(short), t) for t in others):
+                continue
+            rest = dict(files)
+            del rest[name]
+            if rest:
+                yield dict(case, files=rest)
+        return
     # fewer files
     if len(files) > 1:
         for name in sorted(files):
